@@ -13,6 +13,7 @@ import (
 
 	"github.com/elastic/go-libaudit/v2/aucoalesce"
 	"github.com/elastic/go-libaudit/v2/auparse"
+	"go.uber.org/zap"
 
 	"github.com/metal-toolbox/audito-maldito/internal/common"
 	"github.com/metal-toolbox/audito-maldito/internal/health"
@@ -140,7 +141,7 @@ func (p cprog) admissible() map[string]string {
 		}
 		r := vlib.NewRec()
 		r.NoGid = true
-		tr := sessiontracker.NewSessionTracker(r.Writer(), nil)
+		tr := sessiontracker.NewSessionTracker(r.Writer(), trackerLogger())
 		pos := make([]int, len(p.Threads))
 		var errs []error
 		var desc []string
@@ -170,7 +171,7 @@ func (p cprog) admissible() map[string]string {
 func (p cprog) instance() ([]func(), func() string) {
 	r := vlib.NewRec()
 	r.NoGid = true
-	tr := sessiontracker.NewSessionTracker(r.Writer(), nil)
+	tr := sessiontracker.NewSessionTracker(r.Writer(), trackerLogger())
 	uids := p.uids()
 	var mu sync.Mutex
 	var errs []error
@@ -429,7 +430,7 @@ func c03Steer(r *vlib.Run) (execs int, distinct *vlib.Distinct) {
 		p := largeProgram(rng)
 		rec := vlib.NewRec()
 		rec.NoGid = true
-		tr := sessiontracker.NewSessionTracker(rec.Writer(), nil)
+		tr := sessiontracker.NewSessionTracker(rec.Writer(), trackerLogger())
 		uids := p.uids()
 		var fns []func()
 		for t := range p.Threads {
@@ -527,7 +528,7 @@ func childC03(args []string) {
 			out.begin(i, p.String())
 			rec := vlib.NewRec()
 			rec.NoGid = true
-			tr := sessiontracker.NewSessionTracker(rec.Writer(), nil)
+			tr := sessiontracker.NewSessionTracker(rec.Writer(), trackerLogger())
 			uids := p.uids()
 			for j, op := range p.Pre {
 				_ = applyOp(tr, p.Plan, op, j)
@@ -755,4 +756,13 @@ func cdPid(sshdPid, n int) int {
 		return sshdPid + 20000
 	}
 	return sshdPid
+}
+
+// trackerLogger: nil (the tracker's own Nop logger) or, in processes run at
+// debug log level, a debug-level logger to nowhere.
+func trackerLogger() *zap.SugaredLogger {
+	if debugLog {
+		return debugLogger()
+	}
+	return nil
 }
